@@ -46,15 +46,15 @@ func (g *c05gen) cmd(ci int, profile string) []B {
 		fam = pick(r, []string{"reg", "ctr", "list", "set", "hash"})
 	}
 	if r.Bool(0.12) {
-		switch r.Intn(4) {
+		// KEYS is not a single-key command and is not required to be an atomic
+		// snapshot while writers are active: it is judged by the auditor at quiescence
+		switch r.Intn(3) {
 		case 0:
 			return bs("del", k)
 		case 1:
 			return bs("exists", k)
 		case 2:
 			return bs("type", k)
-		case 3:
-			return bs("keys", "*")
 		}
 	}
 	switch fam {
